@@ -154,6 +154,34 @@ struct arena_policy
     {
         construct_impl(where);
     }
+    static int nbad()
+    {
+        return 0;
+    }
+    static std::string bad_kind(int)
+    {
+        return "";
+    }
+    template <class W>
+    static std::string bad_name(W&, int, int)
+    {
+        return "";
+    }
+    template <class W>
+    static bool bad_enabled(W&, int, int)
+    {
+        return false;
+    }
+    template <class W>
+    static void bad_call(W&, int, int)
+    {
+    }
+    template <class W>
+    static u64 digest(W&, int s)
+    {
+        (void)s;
+        return 0;
+    }
     static bool fills_new()
     {
         return false;
